@@ -230,8 +230,7 @@ def run(ck):
         paths = paths_of(prog, th2, max_paths=200)
         rets = [p for p in paths if p.outcome == "return"]
         ck.check(len(rets) >= 1, "C12.R4", "LambdaCallback:constructible", lam.module.relpath + ":LambdaCallback", "no path constructs a LambdaCallback from six callables")
-        if rets:
-            p = rets[0]
+        for p in rets:
             fns, obj = p.value
             for ev in P.EVENTS:
                 ck.check(obj.inst.attrs.get(ev) is fns[ev], "C12.R4", "LambdaCallback.%s bound" % ev, lam.module.relpath + ":LambdaCallback.__init__",
